@@ -34,7 +34,10 @@ THEOREMS = ["copy_reassembles", "restore_any_reader", "restore_snapshot", "snaps
             "staged_model_meets_spec", "staged_oracle_accepts_model", "dbimpl_state_modelled",
             # GetTimelineId under concurrent requests, one atomic step per bolt transaction (C17/TimelineConc.lean)
             "timeline_once_concurrent", "timeline_steps_expected", "marker_steps_expected",
-            "code_timeline_once_concurrent", "split_program_generates_twice"]
+            "code_timeline_once_concurrent", "split_program_generates_twice",
+            # the path argument of Snapshot / SnapshotInTx: templates, the directory, the three uses of the path (C17/Paths.lean)
+            "snapshot_path_file_marked", "path_use_correct_iff", "expand_plain_path", "path_level_refines_slots",
+            "path_restore_snapshot", "snapshot_path_program_expected", "code_expansion_is_model"]
 TABLE_OBLIGATIONS = ["restore_under_write_lock (Generated/DbLocks.lean, regenerated from boltz/db.go)",
                      "tx_entry_points_guarded (same table)", "no_reentrant_read_lock (same table)",
                      "all_entry_points_flat (same table)",
@@ -42,14 +45,15 @@ TABLE_OBLIGATIONS = ["restore_under_write_lock (Generated/DbLocks.lean, regenera
                      "in_tx_apis_take_no_read_lock (dbInTxPrograms: every exported DbImpl method on its in-transaction path; dbInTxApis: methods taking the transaction + methods the repository calls inside a transaction body; same file)",
                      "timeline_steps_expected (dbMetaOps: bolt transactions of GetTimelineId and the marker reads / guard / idF / writes inside, same file)",
                      "marker_steps_expected (dbMetaOps: GetSnapshotId, MarkAsSnapshot, same file)",
-                     "dbimpl_state_modelled (field list of `type DbImpl struct` + package-level vars of boltz/db.go, same file)"]
+                     "dbimpl_state_modelled (field list of `type DbImpl struct` + package-level vars of boltz/db.go, same file)",
+                     "snapshot_path_program_expected (dbSnapshotPathOps: what SnapshotInTx does with its path strings - the chain of ReplaceAll calls, the variable and version CopyFile / MarkAsSnapshot / the return use; extract/dbpaths.go, same file)"]
 
 RULE = ("sequential histories over {Update commit/rollback, Snapshot, View+SnapshotInTx, Update+SnapshotInTx, failing "
         "Snapshot, StreamToWriter, RestoreSnapshot, RestoreFromReader, GetSnapshotId, GetTimelineId x3 modes x idF "
         "ok/failing, AddRestoreListener, dump} on 6 keys / 6 typed values (two of them 300 KB / 700 KB blobs so that snapshot files straddle the 32 KB and 1 MB copy buffers) / 1-3 snapshot slots: 51 fixed histories "
         "'live db carries the id of an earlier restore; another snapshot streams in while the reader calls X at position P' "
         "(16 calls x 3 positions x 4 reader behaviours, + 3 in-transaction snapshot routes) + 45 fixed histories of "
-        "the property's shape (route x restore call x mode), every chunk size x EOF style against a small snapshot (and against a > 1 MB one: 4 in quick, all in thorough) + seeded random ones (75% forced to contain snapshot ... "
+        "the property's shape (route x restore call x mode), 57 + 2 histories of the property's shape with the snapshot taken through a path TEMPLATE (19 templates: every placeholder DATE / TIME / DB_DIR / DB_FILE in both forms, several, adjacent, leading, as the directory, between single underscores, half an __X__ form, lower case, none; x Snapshot / View+SnapshotInTx / Update+SnapshotInTx; the restore reads the file under the path the call RETURNED, as for every snapshot operation; returned path and other directory entries created are compared with the path-level model), every chunk size x EOF style against a small snapshot (and against a > 1 MB one: 4 in quick, all in thorough) + seeded random ones (75% forced to contain snapshot ... "
         "restore; gsid; 2 timeline requests; dump); concurrent populations of View/Update/Batch/StreamToWriter/"
         "GetSnapshotId/GetTimelineId goroutines against RestoreSnapshot goroutines (each transaction must read all "
         "keys equal, twice), with and without concurrent Snapshot, 3 staged re-entrancy scenarios, one `stage api:<Method>` per DbImpl method of the regenerated lock table (called by reflection from "
@@ -79,9 +83,9 @@ def nontrivial(case, impl):
     for i, op in enumerate(f[1:]):
         o = obs[i] if i < len(obs) else ""
         p = op.split(":")
-        if p[0] in ("snap", "snapt", "snapu", "stream", "snaptc", "snapuc", "streamc") and not o.startswith("err"):
+        if p[0] in ("snap", "snapt", "snapu", "stream", "snaptc", "snapuc", "streamc", "snapp", "snaptp", "snapup") and not o.startswith("err"):
             snapped[p[1]] = i
-            wrote_after[p[1]] = p[0] in ("snapu", "snapuc") and len(p) > 2 and p[2] != ""
+            wrote_after[p[1]] = p[0] in ("snapu", "snapuc", "snapup") and len(p) > 2 and p[2] != ""
         elif p[0] == "tx" and o == "ok" and p[1] != "":
             for k in wrote_after:
                 wrote_after[k] = True
@@ -216,6 +220,9 @@ def histogram(lines):
                     name = f"gtl:{p[1]}:{'ok' if p[2] == '1' else 'idFfails'}"
                 elif name == "tx":
                     name = "tx:commit" if p[2] == "c" else "tx:rollback"
+                elif name in ("snapp", "snaptp", "snapup"):
+                    import re
+                    h["path-template:" + re.sub(r"s\d+", "s<k>", p[-1])] += 1
                 elif name == "restc" and len(p) == 6 and p[5] != "-":
                     for cb in p[5].split(";"):
                         pos, _, call = cb.partition("=")
